@@ -8,25 +8,38 @@ package middleware
 func VerifC20_Samplers() {
 	// the instants the adaptive sampler reads are not the subject here
 	verifMode("concrete-clock")
-	var s Sampler
 	size := nondetChoice("sample-size", 3) + 1
-	if nondetBool("adaptive") {
-		rate := []int{1, 50, 100000}[nondetChoice("max-rate", 3)]
-		s = NewAdaptiveSampler(rate, size)
-		// some earlier traffic
-		for i := 0; i < nondetChoice("earlier-requests", 3); i++ {
-			s.Sample()
-		}
+	adaptive := nondetBool("adaptive")
+	rate, earlier, pct := 1, 0, 0
+	if adaptive {
+		rate = []int{1, 50, 100000}[nondetChoice("max-rate", 3)]
+		earlier = nondetChoice("earlier-requests", 3)
 	} else {
-		pct := nondetInt("percent")
+		pct = nondetInt("percent")
 		verifAssume(pct >= 0 && pct <= 100)
-		s = NewFixedSampler(pct)
 	}
-	var r0, r1 bool
-	verifConcurrently(
-		func() { r0 = s.Sample() },
-		func() { r1 = s.Sample() },
-	)
+	// natively the two goroutines are started many times so that the scheduler
+	// meets the windows the executor explores as preemption points
+	reps := verifNativeRepeat()
+	if reps > 1 {
+		reps *= 300
+	}
+	for rep := 0; rep < reps; rep++ {
+		var s Sampler
+		if adaptive {
+			s = NewAdaptiveSampler(rate, size)
+			for i := 0; i < earlier; i++ {
+				s.Sample() // some earlier traffic
+			}
+		} else {
+			s = NewFixedSampler(pct)
+		}
+		var r0, r1 bool
+		verifInterleave(
+			func() { r0 = s.Sample() },
+			func() { r1 = s.Sample() },
+		)
+		_, _ = r0, r1
+	}
 	verifRaceFree("sampler")
-	_, _ = r0, r1
 }
